@@ -54,3 +54,6 @@ bool hx_tmpl_refs_ok(json_t *tmpl, json_t *owner, const char *plural);
 
 #define CANARY 32
 #define CANARY_BYTE 0xA5
+/* RAND_bytes tape (hx_jwe.c) */
+void hx_tape_set(json_t *args);
+void hx_tape_clear(void);
